@@ -97,6 +97,12 @@ static void* racer(void* p) {
   while (attempts() < 2) fmc_yield();
   return (void*)(intptr_t)(ok ? 1 : 2);
 }
+// -Dnoise=K: K more fibers that only yield a few times, so that a fiber which yields while it polls
+// for its join partner is really queued (and can be stolen) instead of continuing at once
+static void* jnoise(void* p) {
+  for (int k = 0; k < 3; k++) fiber_yield();
+  return 0;
+}
 static void* detacher(void* p) {
   mark_detached();
   int r = fiber_detach(F);
@@ -114,6 +120,7 @@ int harness_main(void) {
   sc = fmc_param("sc", 1);
   rt_start();
   fmc_begin();
+  for (int k = 0; k < fmc_param("noise", 0); k++) fiber_detach(fiber_create(STK, jnoise, 0));
   switch (sc) {
     case 1:
       F = fiber_create(STK, f_body, 0); fmc_focus(F, sizeof *F);
